@@ -208,8 +208,9 @@ def pick_cross_ins_any(rng, pv, texts):
             if a == i0 or b == i1:
                 continue
         seg = acc[a:b]
-        if any(c["c"] == "\n" for c in seg) or len({tuple(c["comments"]) for c in seg}) > 1 or any(c["marked"] for c in seg):
+        if any(c["c"] == "\n" for c in seg) or any(c["marked"] for c in seg):
             continue
+        # (the range may also cross the start / end of a comment range that lies in the insertion)
         target = "".join(c["c"] for c in seg)
         if not target.strip() or target != target.strip():
             continue
@@ -225,6 +226,75 @@ def pick_cross_ins_any(rng, pv, texts):
                 "over_del": False, "state": "cross_ins", "rid": acc[i0]["rid"], "at_para_start": a == 0,
                 "at_para_end": b == len(acc), "crosses_runs": True, "after_tab_in_run": False, "has_tab": False, "shape": shape}
     return None
+
+
+def gen_whole_ins_edit(rng, doc, texts):
+    """an edit whose target is the whole text of another reviewer's pending insertion: deleted, or replaced;
+    -> list with 0 or 1 edit"""
+    word = WordSource(rng)
+    pvs = [ParaView(si, pi, p) for pi, (si, p) in enumerate(sem.all_paragraphs(doc))]
+    rng.shuffle(pvs)
+    for pv in pvs[:10]:
+        acc = pv.acc
+        i = 0
+        while i < len(acc):
+            if acc[i]["state"] != "ins":
+                i += 1
+                continue
+            j = i
+            while j < len(acc) and acc[j]["state"] == "ins" and acc[j]["rid"] == acc[i]["rid"]:
+                j += 1
+            seg = acc[i:j]
+            a, b = i, j
+            i = j
+            # the whole insertion: every character carrying this id in the paragraph
+            if sum(1 for c in pv.chars if c["state"] == "ins" and c["rid"] == seg[0]["rid"]) != len(seg):
+                continue
+            target = "".join(c["c"] for c in seg)
+            if len(target.strip()) < 2 or "\n" in target or any(c["marked"] for c in seg) or len({tuple(c["comments"]) for c in seg}) > 1:
+                continue
+            if count_occ(texts["clean"], target) != 1 or count_occ(texts["raw"], target) != 1 or annot_hit(texts, target):
+                continue
+            if count_occ(fuzzy_norm(texts["clean"]), fuzzy_norm(target)) != 1:
+                continue
+            kind = "delete" if rng.random() < 0.7 else "replace"
+            return [{"si": pv.si, "pi": pv.pi, "a": a, "b": b, "target": target, "new": "" if kind == "delete" else word(),
+                     "kind": kind, "comment": None, "locatable": True, "in_raw": True, "over_del": False, "state": "ins",
+                     "rid": seg[0]["rid"], "whole_insertion": True}]
+    return []
+
+
+def gen_cell_start_prefix(rng, doc, texts):
+    """a word put in front of the first word of a table cell that is not the first cell of its row (after context
+    trimming: a pure insertion at the very start of the cell); -> list with 0 or 1 edit"""
+    word = WordSource(rng)
+    firsts = []
+
+    def walk(blocks):
+        for b in blocks:
+            if "tbl" in b:
+                for row in b["tbl"]["rows"]:
+                    for ci, c in enumerate(row["cells"]):
+                        if ci > 0 and c["blocks"] and "p" in c["blocks"][0] and c.get("vmerge") in (None, "none", "restart"):
+                            firsts.append(c["blocks"][0]["p"])
+                        walk(c["blocks"])
+    walk(doc["body"])
+    rng.shuffle(firsts)
+    pvs = {id(p): ParaView(si, pi, p) for pi, (si, p) in enumerate(sem.all_paragraphs(doc))}
+    for p in firsts[:6]:
+        pv = pvs.get(id(p))
+        if pv is None or len(pv.acc) < 3 or pv.acc[0]["state"] != "plain" or pv.acc[0]["marked"]:
+            continue
+        b = 0
+        while b < len(pv.acc) and b < 14 and pv.acc[b]["c"] != " ":
+            b += 1
+        e = _range_edit(rng, pv, texts, 0, b, word, kind="prefix")
+        if not e or not e["in_raw"] or not e["target"][:1].isalnum():
+            continue
+        e["new"] = word() + " " + e["target"]
+        e.update({"state": "plain", "rid": None, "at_para_start": True, "kind": "prefix_at_cell_start"})
+        return [e]
+    return []
 
 
 def gen_cross_ins_any(rng, doc, texts):
@@ -629,8 +699,65 @@ def gen_bridge_pair(rng, doc, texts):
                 continue
             for e in (e1, e2):
                 e.update({"state": "plain", "rid": None, "bridge_pair": True})
-            return [e1, e2]
+            out = [e1, e2]
+            # a third, ordinary edit on a word of the same run in between, whose target length lies between the two
+            # (edits are applied longest target first: accepted-view match, raw-view match that splits the run,
+            # accepted-view match)
+            if len(starts) >= 5:
+                for k in range(2, len(starts) - 2):
+                    wa = lo + starts[k]
+                    wb = lo + (starts[k + 1] - 1 if txt[starts[k + 1] - 1] == " " else starts[k + 1])
+                    em = _range_edit(rng, pv, texts, wa, wb, word, kind="replace")
+                    lens = sorted([len(e1["target"]), len(e2["target"])])
+                    if em and em["in_raw"] and lens[0] < len(em["target"]) < lens[1] and \
+                            not any(em["target"] in x["target"] or x["target"] in em["target"] for x in out):
+                        em.update({"state": "plain", "rid": None, "bridge_pair": True})
+                        out.append(em)
+                        break
+            return out
     return []
+
+
+def inject_bridge_paragraph(rng, doc):
+    """Appends a paragraph  A {--d1--} B {--d2--} C  (two pending deletions by another reviewer, B a long plain run) to the
+    body and returns three edits on it: one across d1 (longest target), one on a word in the middle of B, one across
+    d2 (shortest target) — applied longest first, so: accepted-view match, raw-view match that splits B, accepted-view
+    match in the same run."""
+    import json as _json
+
+    ids = [int(x) for x in re.findall(r'"id": "(\d+)"', _json.dumps(doc))]
+    nid = max(ids + [0]) + 1
+    tag = "".join(rng.choice("bcdfgkmpt") for _ in range(2))
+    w = lambda k: f"H{tag}{k}"
+
+    def run(t):
+        return {"k": "r", "run": {"b": None, "i": None, "rest": "", "ch": [{"k": "t", "s": t}]}}
+
+    def dele(t, i):
+        return {"k": "del", "id": str(i), "author": "Bob", "date": "2024-01-05T10:00:00Z",
+                "runs": [{"b": None, "i": None, "rest": "", "ch": [{"k": "dt", "s": t}]}]}
+
+    A = f"{w('a')} {w('b')} {w('c')} "
+    B = f"{w('e')} {w('f')} {w('g')}ggggg {w('h')} {w('i')} {w('j')} "
+    C = f"{w('l')} {w('m')}."
+    doc["body"].append({"p": {"style": None, "ppr": "", "nodes": [run(A), dele(w('d') + " ", nid), run(B), dele(w('k') + " ", nid + 1), run(C)]}})
+    paras = sem.all_paragraphs(doc)
+    pi = len(paras) - 1 - len([1 for s in doc.get("footers", [])])   # body paragraph index is found by content below
+    pi = next(i for i, (si, p) in enumerate(paras) if p is doc["body"][-1]["p"])
+    si = paras[pi][0]
+    acc = A + B + C
+
+    def ed(target, new, kind):
+        a = acc.index(target)
+        return {"si": si, "pi": pi, "a": a, "b": a + len(target), "target": target, "new": new, "kind": kind, "comment": None,
+                "locatable": True, "in_raw": False, "over_del": True, "state": "plain", "rid": None, "bridge_pair": True}
+
+    x1, x2, x3 = ("X" + tag + "1"), ("X" + tag + "2"), ("X" + tag + "3")
+    e1 = ed(f"{w('b')} {w('c')} {w('e')} {w('f')}", f"{w('b')} {w('c')} {x1} {w('f')}", "shared")
+    e2 = ed(f"{w('g')}ggggg", x2, "replace")
+    e2.update(in_raw=True, over_del=False)
+    e3 = ed(f"{w('j')} {w('l')}", f"{x3} {w('l')}", "shared")
+    return [e1, e2, e3]
 
 
 def gen_mixed_batch(rng, doc, texts, n_edits, kinds=None, comment_p=0.3, conflicts=False, extras=True, states=("plain",)):
